@@ -89,6 +89,22 @@ var c11CuratedFamilies = []c11Family{
 		},
 		Roots: []c11Root{{Text: "@kid"}, {Text: "{ // {allOf: \"@kid\", additionalProperties: \"integer\"}\n  @key: 1\n}"}, {Text: "[@kid, @p1]"}},
 	},
+	{ // base types shared by roots whose DERIVED types differ: compiling one root must not change another
+		Types: []lib.TypeDef{
+			{Name: "@b1", Text: "{\n  \"left\": 1,\n  \"right\": 2\n}"},
+			{Name: "@b2", Text: "{\n  \"x\": \"s\"\n}"},
+			{Name: "@b3", Text: "{\n  \"y\": true,\n  \"z\": null\n}"},
+			{Name: "@d1", Text: "{} // {allOf: [\"@b1\", \"@b2\"]}"},
+			{Name: "@d2", Text: "{ // {allOf: [\"@b1\", \"@b3\"]}\n  \"o\": 1 // {optional: true}\n}"},
+			{Name: "@d3", Text: "{ // {allOf: [\"@b2\", \"@b1\", \"@b3\"]}\n  \"own\": 1\n}"},
+		},
+		Roots: []c11Root{
+			{Text: "@d1", Only: []string{"@b1", "@b2", "@d1"}},
+			{Text: "@d2", Only: []string{"@b1", "@b3", "@d2"}},
+			{Text: "[@d3]", Only: []string{"@b1", "@b2", "@b3", "@d3"}},
+			{Text: "{\n  \"k\": @d1,\n  \"m\": @d2 // {optional: true}\n}", Only: []string{"@b1", "@b2", "@b3", "@d1", "@d2"}},
+		},
+	},
 	{ // allOf expansions that fail half-way, in a type shared by several roots
 		Types: []lib.TypeDef{
 			{Name: "@obj", Text: "{\n  \"o\": 1\n}"},
@@ -108,6 +124,7 @@ var c11CuratedDocs = []c11Doc{
 	{Text: `{"code": "foo", "kind": "b"}`}, {Text: `"bar"`}, {Text: `{"v": 1, "next": {"v": "ab"}}`}, {Text: `{"list": [{"v": 1}], "leaf": "q"}`},
 	{Text: `{"a": 11, "b": "x", "c": "xa"}`}, {Text: `{"id": 1, "tags": ["a", "b"], "opt": 1.5}`}, {Text: `[1, "two", {"k": null}]`}, {Text: `{"k": 1}`},
 	{Text: `"2021-01-02"`}, {Text: `{"a": {"b": {"c": [1, 2, 3]}}, "zz": "v"}`}, {Text: `{"p1": 1, "own": true}`}, {Text: `{"p1": 1, "own": true, "kk2": 5, "zzz": 7}`},
+	{Text: `{"left": 1, "right": 2, "x": "s"}`}, {Text: `{"left": 1, "right": 2, "y": true, "z": null}`}, {Text: `[{"left": 1, "right": 2, "x": "s", "y": false, "z": null, "own": 3}]`},
 	{Text: `{"a": 1,}`}, {Text: ``}, {Text: `   `}, {Text: `[1, 2`}, {Text: `{"k": 1} trailing`, Trailing: true}, {Text: `{"k": 1} x`}, {Text: `1`}, {Text: `null`},
 	{Text: "{\n  \"k\" : [ true , false , null ] \n}\n"},
 }
@@ -438,8 +455,11 @@ var c11ExhPools = []c11ExhPool{
 		Families: []c11Family{c11CuratedFamilies[2]},
 		Docs:     []c11Doc{{Text: `{"v": 1, "next": {"v": "ab"}}`}}}},
 	{"roots sharing types whose allOf expansion fails half-way + a document", c11Pool{
-		Families: []c11Family{{Types: c11CuratedFamilies[6].Types, Roots: c11CuratedFamilies[6].Roots[:2]}},
+		Families: []c11Family{{Types: c11CuratedFamilies[7].Types, Roots: c11CuratedFamilies[7].Roots[:2]}},
 		Docs:     []c11Doc{{Text: `{"o": 1, "own": true}`}}}},
+	{"roots with their own derived types over shared allOf bases + a document", c11Pool{
+		Families: []c11Family{{Types: c11CuratedFamilies[6].Types, Roots: c11CuratedFamilies[6].Roots[:2]}},
+		Docs:     []c11Doc{{Text: `{"left": 1, "right": 2, "x": "s"}`}}}},
 	{"two allOf parents, key shortcut roots + a trailing-characters document", c11Pool{
 		Families: []c11Family{{Types: c11CuratedFamilies[5].Types, Roots: c11CuratedFamilies[5].Roots[:2]}},
 		Docs:     []c11Doc{{Text: `{"p1": 1, "own": true, "kk2": 5} x`, Trailing: true}}}},
